@@ -401,6 +401,30 @@ def r3_two_sided(ctx) -> None:
     ctx.stats["C13.R3 range guards followed by a subscript"] = n
 
 
+def r5_exit_never_swallows(ctx) -> None:
+    """a truthy answer of __exit__ suppresses the exception that is leaving the `with` block: every refusal raised while building
+    inside it would vanish and building would go on"""
+    from ..canon import NoCanon
+    from ..core import AnalysisError
+    prog = ctx.program
+    for mn, m in sorted(prog.modules.items()):
+        if not mn.startswith("hugr.build"):
+            continue
+        for c in m.classes.values():
+            fn = c.methods.get("__exit__")
+            if fn is None:
+                continue
+            try:
+                ps = ctx.paths(f"{c.qualname}.__exit__")
+            except (AnalysisError, NoCanon) as e:
+                ctx.broken(f"{c.qualname}.__exit__ not summarised: {e}")
+            bad = [p for p in ps if p.kind == "return" and p.value is not None and not (isinstance(p.value, ast.Constant) and p.value.value in (None, False))]
+            ctx.check(not bad, "C13.R5", f"{c.qualname}.__exit__: never swallows", m.path, getattr(bad[0].node, "lineno", fn.lineno) if bad else fn.lineno,
+                      f"{c.name}.__exit__ can answer `{bad[0].value_text() if bad else ''}`: a true answer suppresses the exception in flight, so a builder "
+                      "refusal raised inside the `with` block is swallowed and the inconsistent construction continues", bad[0].node if bad and bad[0].node is not None else fn,
+                      detail="returns None / False on every path")
+
+
 def run(ctx) -> None:
     ctx.rule("C13.R1", "guard table: documented exception raised, reachable, controlled by a test on the named quantities, checked before the effect", floor=20)
     ctx.rule("C13.R2", "optional op fields are read through _check_complete accessors on every path reachable from _to_serial", floor=15)
@@ -410,6 +434,13 @@ def run(ctx) -> None:
     r6_function_boundary(ctx, rule="C13.R1")     # "a wire's source has no ancestor-sibling relation to its target" includes wires into a function body
     r2_complete(ctx)
     r3_two_sided(ctx)
+    ctx.rule("C13.R4", "Call: port kinds read the instantiated signature, the function port is an *input* (shared with C06.R4): `call(n)` / `load_function(n)` refuse a node whose output is not a function by asking its port kind", floor=3)
+    from .c06 import r4_call
+    from ..nf import NF
+    with ctx.as_rule(C06_R4="C13.R4"):
+        r4_call(ctx, NF(ctx.program))
+    ctx.rule("C13.R5", "builder context managers never swallow an exception: __exit__ answers None / False on every path", floor=3)
+    r5_exit_never_swallows(ctx)
     from .. import lints
     lints.arm(ctx)
 
